@@ -16,6 +16,7 @@ import shutil
 import subprocess
 import sys
 import tempfile
+import threading
 import time
 from concurrent.futures import ThreadPoolExecutor
 
@@ -120,10 +121,74 @@ class LeanResult:
             self.axioms[m.group(1)] = []
 
 
+_LIB_HASH = None
+
+
+def lib_hash() -> str:
+    """content hash of the built hand-written library (every .olean) and the toolchain version"""
+    global _LIB_HASH
+    if _LIB_HASH is None:
+        h = hashlib.sha256()
+        h.update(subprocess.run(["lean", "--version"], capture_output=True, text=True).stdout.encode())
+        root = LEAN_DIR / ".lake" / "build" / "lib" / "lean"
+        for f in sorted(root.rglob("*.olean")):
+            h.update(str(f.relative_to(root)).encode())
+            h.update(hashlib.sha256(f.read_bytes()).digest())
+        _LIB_HASH = h.hexdigest()
+    return _LIB_HASH
+
+
+def _closure_hash(workdir: pathlib.Path, name: str, seen: dict) -> str | None:
+    """hash of the source text of module `name` and, transitively, of every module it imports from the work directory"""
+    if name in seen:
+        return seen[name]
+    src = workdir / (name.replace(".", "/") + ".lean")
+    if not src.exists():
+        return None
+    text = src.read_text()
+    h = hashlib.sha256()
+    h.update(name.encode() + b"\0" + text.encode())
+    seen[name] = "cycle"
+    for m in re.findall(r"^import\s+(\S+)", text, re.M):
+        if m.startswith("LspVerif") or m.split(".")[0] in ("Init", "Lean", "Std", "Mathlib", "Batteries"):
+            continue
+        d = _closure_hash(workdir, m, seen)
+        if d is None:
+            return None
+        h.update(m.encode() + b"\0" + d.encode())
+    seen[name] = h.hexdigest()
+    return seen[name]
+
+
+def _cache_key(workdir: pathlib.Path, name: str, text: str):
+    """Key of a compiled obligation module: toolchain + library build + module name + its exact text + the exact text of
+    every work-directory module it imports, transitively.  Identical key = the kernel already accepted exactly this module
+    in exactly this context.  None when an imported module is missing (then no caching)."""
+    c = _closure_hash(workdir, name, {})
+    if c is None:
+        return None
+    return hashlib.sha256((lib_hash() + c).encode()).hexdigest()
+
+
 def lean_compile_one(workdir: pathlib.Path, name: str, timeout: int = 1200) -> LeanResult:
-    """Compile module `name` (file workdir/<name with / for .>.lean) to an .olean beside it."""
+    """Compile module `name` (file workdir/<name with / for .>.lean) to an .olean beside it.
+    Successful compilations are kept in a content-addressed cache (.work/cache) shared by all checks: the same regenerated
+    tables and obligations are used by several properties (C01, C02, C03, C14)."""
     src = workdir / (name.replace(".", "/") + ".lean")
     t0 = time.time()
+    key = None
+    if os.environ.get("VERIF_NO_CACHE") != "1":
+        try:
+            key = _cache_key(workdir, name, src.read_text())
+        except OSError:
+            key = None
+    cdir = WORK / "cache" / key if key else None
+    if cdir is not None and (cdir / "ok").exists():
+        try:
+            shutil.copyfile(cdir / "m.olean", src.with_suffix(".olean"))
+            return LeanResult(name, True, (cdir / "out.txt").read_text() + "\n-- (cached: identical module text and dependencies were compiled before)", time.time() - t0)
+        except OSError:
+            pass
     try:
         p = subprocess.run(["lean", "-o", str(src.with_suffix(".olean")), str(src)],
                            capture_output=True, text=True, env=lean_env(workdir), timeout=timeout,
@@ -131,6 +196,19 @@ def lean_compile_one(workdir: pathlib.Path, name: str, timeout: int = 1200) -> L
         ok, out = p.returncode == 0, p.stdout + p.stderr
     except subprocess.TimeoutExpired:
         ok, out = False, f"TIMEOUT after {timeout}s"
+    if ok and cdir is not None:
+        try:
+            tmp = WORK / "cache" / f".tmp-{os.getpid()}-{threading.get_ident()}"
+            tmp.mkdir(parents=True, exist_ok=True)
+            shutil.copyfile(src.with_suffix(".olean"), tmp / "m.olean")
+            (tmp / "out.txt").write_text(out)
+            (tmp / "ok").write_text("1")
+            if not cdir.exists():
+                os.rename(tmp, cdir)
+            else:
+                shutil.rmtree(tmp, ignore_errors=True)
+        except OSError:
+            pass
     return LeanResult(name, ok, out, time.time() - t0)
 
 
@@ -266,6 +344,11 @@ class Ctx:
         rechecked = [n for n, r in res.items() if getattr(r, "leanchecker", None) is True]
         if rechecked:
             self.notes.append("leanchecker re-checked: " + ", ".join(rechecked))
+        cached = [n for n, r in res.items() if r.ok and "-- (cached:" in r.out]
+        if cached:
+            self.notes.append(f"{len(cached)} obligation module(s) taken from the content-addressed cache (.work/cache: identical text of the module and of "
+                              "everything it imports, same library build and toolchain, accepted by the kernel earlier; VERIF_NO_CACHE=1 recompiles): "
+                              + ", ".join(cached[:12]) + (" ..." if len(cached) > 12 else ""))
         for name, r in res.items():
             exp = (theorems_expected or {}).get(name)
             if r.ok:
